@@ -136,7 +136,8 @@ fn abs_integers() {
         assert!(matches!(&r, Ok(v) if int_sm(v) == Some((false, x.unsigned_abs()))));
     }
     std::mem::forget(r);
-    std::mem::forget((kw, st, ctx));
+    std::mem::forget((kw, st));
+    std::mem::forget(ctx);
 }
 
 // killed by: F64 arm `Ok(v.into())` (sign kept); F64 arm `Ok((-v).into())`
@@ -150,7 +151,8 @@ fn abs_float() {
     // sign bit cleared, everything else untouched (so |-0.0| = 0.0, |-inf| = inf, NaN payload kept)
     assert!(matches!(&r, Ok(v) if f64_bits(v) == Some(f.to_bits() & !(1u64 << 63))));
     std::mem::forget(r);
-    std::mem::forget((kw, st, ctx));
+    std::mem::forget((kw, st));
+    std::mem::forget(ctx);
 }
 
 // killed by: abs `_ => Ok(val)`; float `_ => Ok(0.0)` in the non-number arm; int `_ => Ok(0.into())`
@@ -178,7 +180,8 @@ fn conversions_reject_non_numbers() {
     rejected!(Value::from(b));
     rejected!(Value::none());
     rejected!(Value::undefined());
-    std::mem::forget((kw, st, ctx));
+    std::mem::forget((kw, st));
+    std::mem::forget(ctx);
 }
 
 // ---------------------------------------------------------------------------------------------
@@ -207,7 +210,8 @@ fn int_of_integers_is_identity() {
     let r = int(Value::from(x), kw.clone(), &st);
     assert!(matches!(&r, Ok(v) if int_sm(v) == Some((x < 0, x.unsigned_abs()))));
     std::mem::forget(r);
-    std::mem::forget((kw, st, ctx));
+    std::mem::forget((kw, st));
+    std::mem::forget(ctx);
 }
 
 // killed by: Number::as_integer without the `f.fract() == 0.0` test (1.5 | int == 1);
@@ -235,7 +239,8 @@ fn int_of_float_is_exact_or_error() {
         }
     }
     std::mem::forget(r);
-    std::mem::forget((kw, st, ctx));
+    std::mem::forget((kw, st));
+    std::mem::forget(ctx);
 }
 
 // ---------------------------------------------------------------------------------------------
@@ -280,7 +285,8 @@ fn float_is_exact_up_to_2_53() {
         assert!(matches!(&r, Ok(g) if exact_f64_int(*g, x < 0, x.unsigned_abs()) == Ordering::Equal));
         std::mem::forget(r);
     }
-    std::mem::forget((kw, st, ctx));
+    std::mem::forget((kw, st));
+    std::mem::forget(ctx);
 }
 
 // ---------------------------------------------------------------------------------------------
@@ -326,7 +332,8 @@ fn round_default_is_nearest_integer() {
         assert!((g.to_bits() >> 63) == (f.to_bits() >> 63));
     }
     std::mem::forget(r);
-    std::mem::forget((kw, st, ctx));
+    std::mem::forget((kw, st));
+    std::mem::forget(ctx);
 }
 
 // ---------------------------------------------------------------------------------------------
@@ -369,7 +376,8 @@ fn default_replaces_only_undefined() {
         }};
     }
     for_each_scalar!(go);
-    std::mem::forget((kw, st, ctx));
+    std::mem::forget((kw, st));
+    std::mem::forget(ctx);
 }
 
 // killed by: `if val.is_truthy() { Ok(default_val) } else { Ok(val) }`; ignoring `boolean`
@@ -392,7 +400,8 @@ fn default_boolean_replaces_falsy() {
         }};
     }
     for_each_scalar!(go);
-    std::mem::forget((kw, st, ctx));
+    std::mem::forget((kw, st));
+    std::mem::forget(ctx);
 }
 
 // killed by: `let boolean = kwargs.get::<bool>("boolean")?.is_some()`
@@ -415,5 +424,6 @@ fn default_boolean_false_is_plain() {
         }};
     }
     for_each_scalar!(go);
-    std::mem::forget((kw, st, ctx));
+    std::mem::forget((kw, st));
+    std::mem::forget(ctx);
 }
